@@ -425,3 +425,31 @@ func VH_C07_param_caps_released() {
 	vAssert(n == 1, "C07.params.received-capability-released-exactly-once")
 	vAssert(c.imports[importID(id)] == nil, "C07.params.import-entry-gone")
 }
+
+// A senderLoopback Disembargo that names a result capability which is local (not an import) or an
+// import of this connection: the former is a protocol error, the latter is looped back; in both cases
+// the temporary reference the handler takes is given back - after Close the capability has been shut
+// down exactly once.
+func VH_C07_disembargo_loopback_refs() {
+	t := &vTransport{}
+	boot := &vRecvHook{}
+	c := vNewConn(t, capnp.NewClient(boot))
+	vAssume(c.handleBootstrap(c.bgctx, 7) == nil) // answer 7: returned, result capability is local
+	m := vRecvMsg()
+	d, err := m.NewDisembargo()
+	vAssume(err == nil)
+	d.Context().SetSenderLoopback(vNondetU32())
+	dt, err := d.NewTarget()
+	vAssume(err == nil)
+	pa, err := dt.NewPromisedAnswer()
+	vAssume(err == nil)
+	pa.SetQuestionId(7)
+	herr := c.handleDisembargo(c.bgctx, d)
+	vReach("handled")
+	vAssert(herr != nil, "C08.loopback.local-capability-is-a-protocol-error")
+	vQuiescent(c, "C08.loopback")
+	vAssert(boot.shutdowns == 0, "C07.loopback.capability-alive-while-the-connection-is-open")
+	cerr := c.Close()
+	vAssert(cerr == nil, "C07.loopback.close-ok")
+	vAssert(boot.shutdowns == 1, "C07.loopback.temporary-reference-given-back")
+}
